@@ -111,20 +111,7 @@ def run(ctx):
         vals = sd.values_at(IN, keys, n, 'self.wf_ex.state')
         r2.check(S['PAUSED'] not in vals, ctx.construct(tc, a),
                  'reachable while the workflow is PAUSED', ctx.loc(tc, a))
-    # routing decisions are stored on the paused path too
-    test_nodes = [x for x in cfg.nodes if x.kind == 'test' and
-                  'is_paused' in norm(x.ast)]
-    if not test_nodes:
-        raise AnalysisError('C10.R2: paused test lost in Task.complete')
-    pt = test_nodes[0]
-    for attr in ('next_tasks', 'has_next_tasks', 'error_handled'):
-        sts = [cfg.stmt_node(st) for t, st in U.attr_stores(tc.node)
-               if norm(t) == 'self.task_ex.' + attr]
-        ok = any(cfg.paths_between(s, pt) for s in sts if s is not None)
-        r2.check(ok and bool(sts),
-                 ctx.construct(tc, extra='store %s before pause test' % attr),
-                 '%s is not recorded before the paused-workflow return'
-                 % attr, ctx.loc(tc))
+    shared.routing_recorded_before_pause(ctx, r2)
 
     # ---- R3 resume drains and continues -----------------------------------
     r3 = ctx.rule('R3', 'resume re-enters RUNNING, recomputes commands, '
